@@ -64,6 +64,42 @@ def voigt_canon(digits: str) -> str:
     return f"{a}{b}"
 
 
+MODREP = "cij.util.voigt:ModulusRepresentation"
+STRREP = "cij.util.voigt:StrainRepresentation"
+V2S = {1: (1, 1), 2: (2, 2), 3: (3, 3), 4: (2, 3), 5: (1, 3), 6: (1, 2)}
+
+
+class KeyObj(Obj):
+    """a canonical modulus key c_IJ (T-IDX); conformance of voigt.py to this model is property C10"""
+
+    def __init__(self, name):
+        a, b = int(name[1]), int(name[2])
+        si, sj = V2S[a], V2S[b]
+        I = lambda *x: Tup([sp.Integer(k) for k in x])
+        mk = lambda v, st: Obj(STRREP, {"voigt": sp.Integer(v), "v": sp.Integer(v), "standard": I(*st), "s": I(*st),
+                                        "i": sp.Integer(st[0]), "j": sp.Integer(st[1])})
+        shear = a > 3 or b > 3
+        mult = (1 if a == b else 2) * (1 if si[0] == si[1] else 2) * (1 if sj[0] == sj[1] else 2)
+        super().__init__(MODREP, {
+            "voigt": I(a, b), "v": I(a, b), "standard": I(*si, *sj), "s": I(*si, *sj), "i": mk(a, si), "j": mk(b, sj),
+            "is_shear": shear, "is_longitudinal": (a == b and not shear), "is_off_diagonal": (a != b and not shear),
+            "multiplicity": sp.Integer(mult)}, label=name)
+        self.const_key = name
+        self.name = name
+
+    def __eq__(self, other):
+        return isinstance(other, KeyObj) and other.name == self.name
+
+    def __hash__(self):
+        return hash(self.name)
+
+    def __repr__(self):
+        return self.name
+
+
+KEYS21 = [f"c{i}{j}" for i in range(1, 7) for j in range(i, 7)]
+
+
 def c_intrinsic(ev, args, kwargs):
     """cij.util.c_ as a canonicalising constructor (its conformance to T-IDX is property C10)."""
     vals = []
@@ -74,7 +110,7 @@ def c_intrinsic(ev, args, kwargs):
             vals.append(str(int(a)))
         else:
             raise AnalysisError("c_() of a non-constant")
-    return "c" + voigt_canon("".join(vals))
+    return KeyObj("c" + voigt_canon("".join(vals)))
 
 
 def interpolate_modes_roles(model: Model):
@@ -134,6 +170,17 @@ def qha_attr_hook(ev, obj, name):
     raise AnalysisError(f"missing-qha-attribute:{name}")
 
 
+def tensor_seeds(calc, keys=None):
+    """bind the modulus dictionaries of the Calculator to atoms CAD_ij / CIS_ij / SAD_ij"""
+    keys = keys or KEYS21
+    ks = [KeyObj(k) for k in keys]
+    calc.attrs["modulus_keys"] = Tup(ks, "list")
+    calc.attrs["modulus_adiabatic"] = DictV({k: sp.Symbol(f"CAD_{k.name[1:]}", real=True) for k in ks})
+    calc.attrs["modulus_isothermal"] = DictV({k: sp.Symbol(f"CIS_{k.name[1:]}", real=True) for k in ks})
+    calc.attrs["_compliances"] = DictV({k: sp.Symbol(f"SAD_{k.name[1:]}", real=True) for k in ks})
+    return calc
+
+
 def physics_seeds(model: Model, pstat_atom=True):
     roles, _ = interpolate_modes_roles(model)
     ext = Obj(QHACALC, label="qha calculator")
@@ -142,8 +189,11 @@ def physics_seeds(model: Model, pstat_atom=True):
     prs = Obj(QPRS, {"calculator": ext})
     adapter.attrs["volume_base_results"] = vol
     adapter.attrs["pressure_base_results"] = prs
+    elast = Obj("cij.io.traditional.elast_dat:ElastData", {"cellmass": CELLMASS / (U.g / U.mol),
+                                                           "volumes": Opaque("elast_data.volumes"),
+                                                           "lattice_parmeters": Opaque("elast_data.lattice_parmeters")})
     calc = Obj(CALC, {"qha_calculator": adapter, "na": NAT, "config": Opaque("config"),
-                      "qha_input": Opaque("qha_input"), "elast_data": Opaque("elast_data")})
+                      "qha_input": Opaque("qha_input"), "elast_data": elast})
     seeds = {
         ("global", "cij.util.units:units"): UnitReg(),
         ("global", "cij.util:c_"): LibV("cij.c_"),
